@@ -173,7 +173,10 @@ theorem open_fresh (active : Bool) (m : Mode) :
     the fence counter; all residue of earlier cycles is joined generations and exited loops, which
     `closed_dead`-style reasoning shows inert. PARTIAL: this is the entry of Open; that every later
     behaviour coincides with a fresh connection's (a bisimulation up to renaming of epoch indices) is not
-    proved — the harness observes it (reopen + Select + round trip after every history). -/
+    proved — the harness observes it (reopen + Select + round trip after every history). Note that every
+    safety theorem above (`invariant_reachable`, `no_orphan_generation`, `close_never_stuck`, …) quantifies
+    over ALL action lists, hence over runs with any number of Close/Open cycles: a reopened connection
+    enjoys exactly the guarantees of a fresh one; only behavioural equivalence is left unproved. -/
 theorem reopen_is_fresh_partial (c : Cfg) (h : Closed c) (m : Mode) :
     FreshlyArmed (run c [.openEnter m, .openArm]) m c.epochs.length := by
   obtain ⟨s, hs, hpc⟩ := h.sup
@@ -211,6 +214,20 @@ theorem reopen_is_fresh_partial (c : Cfg) (h : Closed c) (m : Mode) :
 
 /-! ## Termination -/
 
+/-- **No deadlock in Close.** In EVERY reachable configuration (both roles, every interleaving) in which a
+    Close — or the rollback of a failed Open — has passed its entry and not yet returned, some library-side
+    action is enabled: Close's three waits (`e.wait()`, `supWg.Wait()`, `connectLoopWg.Wait()`) always
+    have someone who can move toward satisfying them. Proved from a second inductive invariant (`Inv2`:
+    the pinned epoch is live only while the evClose is still queued un-latched or being processed by a
+    supervisor that has not been told to stop; every loop's `prev` is a published generation; the
+    supervisor exits only after `stop()`), together with `Inv`.
+    A stale loop's pending dial is counted as returning (its generation ctx is cancelled by then). -/
+theorem close_never_stuck (active : Bool) (as : List Act)
+    (hc : closingApi (run (init active) as).api = true) :
+    ∃ a, isLibAct a = true ∧ (step? (run (init active) as) a).isSome = true := by
+  obtain ⟨h, h2⟩ := inv12_run (init active) as (inv_init active) (inv2_init active)
+  exact close_never_stuck_inv _ h h2 hc
+
 /-- The library-side schedule of a Close on an established generation `e`. -/
 def closeSchedule (e : Nat) : List Act :=
   [.closeEnter, .closeRequest, .supStep, .reactCheck, .reactTeardown, .closeTeardown,
@@ -220,11 +237,11 @@ def closeSchedule (e : Nat) : List Act :=
     no live reconnect loop, thirteen library steps — none of which waits on the peer or on a timer —
     complete Close: the api is idle again, `shutdown` is set, the generation is joined, the supervisor
     has exited, State() is NotConnected.
-    PARTIAL: the general statement ("from EVERY reachable configuration in which Close has started, some
-    finite schedule of library actions completes it", i.e. deadlock freedom with a variant) is not proved;
-    what is proved is this representative schedule plus, for every reachable configuration, the facts
-    each of Close's waits relies on (`close_pins_current`: the awaited epoch is `cur` and nothing can
-    replace it; `no_orphan_generation`). Wall-clock boundedness of the real waits (bounded join,
+    PARTIAL: deadlock freedom is proved for every reachable configuration (`close_never_stuck`), and so are
+    the facts each wait relies on (`close_pins_current`, `no_orphan_generation`); what is NOT proved is
+    the variant — that the enabled library actions cannot go on for ever (a measure over queue length,
+    supervisor stage, epoch phases and loop positions that every library action decreases while
+    `shutdown` is set). This theorem gives a representative terminating schedule instead. Wall-clock boundedness of the real waits (bounded join,
     interrupted backoff) is OBSERVED by the harness (Close latency oracle, close-during-long-backoff). -/
 theorem close_terminates_model_partial (c : Cfg) (e : Nat) (s : Sup) (h : Established c e s)
     (hapi : c.api = .idle) (hl : loopsExited c = true) :
